@@ -148,7 +148,10 @@ type env struct {
 	dir     string
 	store   storage.Store
 	mgr     *recMgr
-	srv     *httptest.Server
+	url     string // scheme://host:port of the server under test (no base path)
+	addr    string // host:port
+	mfaFn   func(string) (string, error)
+	calls   [][2]string // naming calls made by the driver itself (assembled-system stream)
 	raw     *http.Client
 	cli     *client.Client
 	baseSeg []string
@@ -157,6 +160,15 @@ type env struct {
 }
 
 func (e *env) mfa(name string) (string, bool) {
+	if e.mfaFn != nil {
+		s, err := e.mfaFn(name)
+		if err != nil {
+			e.calls = append(e.calls, [2]string{name, "E"})
+		} else {
+			e.calls = append(e.calls, [2]string{name, "S" + vh.HS(s)})
+		}
+		return s, err == nil
+	}
 	s, err := e.mgr.MailboxForAddress(name)
 	return s, err == nil
 }
@@ -241,7 +253,7 @@ func (e *env) listTok(hs []*jhdr) string {
 	return "L@" + vh.HS(mb) + ":" + strings.Join(parts, ";")
 }
 
-var tagInSrc = regexp.MustCompile(`(?m)^Subject: subj (\d+)\r$`)
+var tagInSrc = regexp.MustCompile(`(?m)^Subject: subj (\d+)\r?$`)
 
 func srcTok(b []byte) string {
 	m := tagInSrc.FindSubmatch(b)
@@ -249,11 +261,22 @@ func srcTok(b []byte) string {
 		return "S:BAD"
 	}
 	tag, _ := strconv.Atoi(string(m[1]))
+	if smtpPrefixed {
+		// delivered over SMTP: StoreManager.Deliver puts Return-Path and Received lines in front
+		// (and the SMTP DATA reader turns CRLF into LF: property C02)
+		if !bytes.HasSuffix(b, bytes.ReplaceAll(buildRaw(tag), []byte("\r\n"), []byte("\n"))) || !bytes.HasPrefix(b, []byte("Return-Path: <")) {
+			return "S:BADBYTES"
+		}
+		return "S:" + string(m[1])
+	}
 	if !bytes.Equal(b, buildRaw(tag)) {
 		return "S:BADBYTES"
 	}
 	return "S:" + string(m[1])
 }
+
+// smtpPrefixed: the messages of this process were delivered over SMTP (assembled-system stream).
+var smtpPrefixed bool
 
 var tagInHTML = regexp.MustCompile(`^<p>html of (\d+)</p>$`)
 var tagInAtt = regexp.MustCompile(`^ATTACH-(\d+)$`)
@@ -404,7 +427,7 @@ func (e *env) doRaw(parts []string) string {
 			body = strings.NewReader(payload)
 		}
 	}
-	req, err := http.NewRequest(method, e.srv.URL+p, body)
+	req, err := http.NewRequest(method, e.url+p, body)
 	if err != nil {
 		return "BADREQ"
 	}
@@ -437,7 +460,7 @@ func (e *env) doRaw(parts []string) string {
 
 // http10 sends the request as HTTP/1.0 over a plain connection (Content-Length framing, connection closed after).
 func (e *env) http10(req *http.Request, method, p, payload string, hasBody bool) (*http.Response, error) {
-	conn, err := net.DialTimeout("tcp", e.srv.Listener.Addr().String(), 5*time.Second)
+	conn, err := net.DialTimeout("tcp", e.addr, 5*time.Second)
 	if err != nil {
 		return nil, err
 	}
@@ -691,7 +714,7 @@ func runHist(in []string) []string {
 	srv.Start()
 	defer srv.Close()
 
-	e := &env{race: race, dir: dir, store: st, mgr: mgr, srv: srv, ids: map[string][]string{}, rev: map[string]map[string]int{}}
+	e := &env{race: race, dir: dir, store: st, mgr: mgr, url: srv.URL, addr: srv.Listener.Addr().String(), ids: map[string][]string{}, rev: map[string]map[string]int{}}
 	for _, s := range strings.Split(base, "/") {
 		if s != "" {
 			e.baseSeg = append(e.baseSeg, s)
@@ -747,11 +770,17 @@ func exec(kind string, in []string) []string {
 	switch kind {
 	case "hist":
 		return runHist(in)
+	case "asm14":
+		return asmExec(in)
 	}
 	return []string{"UNKNOWN-KIND"}
 }
 
 func main() {
 	zerolog.SetGlobalLevel(zerolog.Disabled)
+	if len(os.Args) > 1 && os.Args[1] == "asm14child" {
+		asmChild(os.Args[2:])
+		return
+	}
 	vh.Main(gen, exec)
 }
